@@ -267,6 +267,49 @@ pub fn drive(args: &HashMap<String, String>) {
         }
         hists.push(json!({"c0": c0, "m0": m0, "events": events, "main_thread": i % 5 == 0, "source": "boundary"}));
     }
+    // 3. generated programs (C01 generator, half of them rich in repeated subexpressions so that the cl23+ CSE pass has
+    //    several candidates per function): each alone in a fresh process under every boundary counter
+    let n_gen: usize = args.get("gen-programs").map(|s| s.parse().unwrap()).unwrap_or(0);
+    let mut gen_srcs: Vec<JobSrc> = vec![];
+    {
+        use crate::gen::{Gen, GenOpts};
+        let sigils = ["*standard-cl-23*", "*standard-cl-23.1*", "*standard-cl-24*", "*standard-cl-21*", "*standard-cl-22*"];
+        let builds = ["cl23", "cl231", "cl24", "cl21", "cl22"];
+        let mut g = Gen::new(rand_chacha::ChaCha8Rng::seed_from_u64(seed ^ 0xC05C5E), GenOpts::cse());
+        let mut i = 0;
+        while gen_srcs.len() < n_gen && i < n_gen * 4 {
+            g.o = if i % 2 == 0 { GenOpts::cse() } else { GenOpts::full() };
+            g.o.macros = false;
+            let mut p = g.program();
+            // a third of the programs with one- and two-letter variable names (measures that include the length of
+            // renamed variables sit on other thresholds than with the generator's P12 / L7 names)
+            if i % 3 == 2 {
+                p = p.rename_vars(&|n: &str| {
+                    let digits = n.trim_start_matches(|c: char| c.is_ascii_alphabetic());
+                    let head = &n[..n.len() - digits.len()];
+                    match (head, digits.parse::<usize>()) {
+                        ("P" | "L" | "S" | "Z" | "M", Ok(k)) => {
+                            let k = k - 1;
+                            if k < 26 { ((b'A' + k as u8) as char).to_string() } else { format!("{}{}", (b'A' + (k / 26 - 1) as u8 % 26) as char, (b'A' + (k % 26) as u8) as char) }
+                        }
+                        _ => n.to_string(),
+                    }
+                });
+            }
+            let k = i % sigils.len();
+            i += 1;
+            if !crate::p_compile::renderable(&p, builds[k]) {
+                continue;
+            }
+            gen_srcs.push(JobSrc { key: format!("rand{}:{}", i, sigils[k]), text: p.render(sigils[k]), file: "*verif*".to_string(), search: vec![] });
+        }
+    }
+    for j in &gen_srcs {
+        for c0 in [8usize, 98, 998, 99_998] {
+            hists.push(json!({"c0": c0, "m0": true, "events": [["begin", 1, job_json(j)], ["end", 1, j.key]], "main_thread": true, "source": "generated"}));
+        }
+    }
+    all_jobs.extend(gen_srcs.iter());
     // every job also once alone with the default process state (the reference observation)
     for j in &all_jobs {
         hists.push(json!({"c0": 0, "m0": true, "events": [["begin", 1, job_json(j)], ["end", 1, j.key]], "main_thread": true, "source": "alone"}));
@@ -334,6 +377,7 @@ pub fn drive(args: &HashMap<String, String>) {
             let same = r.get("code") == first.get("code") && r.get("symbols") == first.get("symbols") && r.get("err").is_some() == first.get("err").is_some();
             if !same {
                 rep.violation(json!({"property": "C05", "kind": "output-depends-on-history", "job": key,
+                    "text": all_jobs.iter().find(|j| &j.key == key).map(|j| j.text.clone()),
                     "history_a": strip_texts(&hists[obs[0].0]), "history_b": strip_texts(&hists[*hi]),
                     "a": {"code": first.get("code"), "err": first.get("err"), "raw_names": first.get("raw_names")},
                     "b": {"code": r.get("code"), "err": r.get("err"), "raw_names": r.get("raw_names")},
